@@ -45,6 +45,18 @@ int ov_ilog(ogg_uint32_t v){ int ret; for(ret=0;v;ret++)v>>=1; return ret; }
 #ifndef DSK
 #define DSK 1
 #endif
+#ifdef COMPAND
+/* compand-idx: the one table index of set-up that depends on the FRACTION of the setting: ds=x[is]*(1-ds)+x[is+1]*ds; is=(int)ds; in[is], in[is+1].
+ * symbolic: the setting = any float in [0,mappings) or any clamp value j+1-.001 (contract of get_setup_template), both mapping tables */
+void harness(void){
+  const ve_setup_data_template *T=setup_list[TI];
+  vorbis_info vi; vorbis_info_init(&vi); codec_setup_info *ci=vi.codec_setup;
+  int block=ND_irange(0,3); ci->psy_param[block]=calloc(1,sizeof(vorbis_info_psy));
+  double s; if(ND_BOOL()){ float f=ND_float(); ASSUME(f>=0.f && f<(float)T->mappings); s=f; WITNESS_AT("float setting"); } else { int j=ND_irange(0,T->mappings-1); s=j+1-.001; }
+  vorbis_encode_compand_setup(&vi,s,block,T->psy_noise_compand,(ND_BOOL()||!T->psy_noise_compand_long_mapping)?T->psy_noise_compand_short_mapping:T->psy_noise_compand_long_mapping);   /* single-block templates have no long mapping; that set-up never asks for it is part of init-walk */
+  free(ci->psy_param[block]); ci->psy_param[block]=0; vorbis_info_clear(&vi);
+}
+#else
 void harness(void){
   const ve_setup_data_template *T=setup_list[TI];
   vorbis_info vi; vorbis_info_init(&vi);
@@ -88,3 +100,4 @@ void harness(void){
   vorbis_info_clear(&vi);
   CHECK(vi.codec_setup==0,"info cleared");
 }
+#endif
